@@ -189,8 +189,10 @@ Top:
 			case 1:
 				b = append(b, '#')
 			default:
+				// The rank is always read as decimal so *print-base* and
+				// *print-radix* do not apply.
 				b = append(b, '#')
-				b = p.Append(b, Fixnum(len(to.dims)), 0)
+				b = strconv.AppendInt(b, int64(len(to.dims)), 10)
 				b = append(b, 'A')
 			}
 			goto Top
